@@ -528,6 +528,7 @@ type stream struct {
 
 	// owned by serverConn's serve loop:
 	bodyBytes        int64   // body bytes seen so far
+	bodyUnrefunded   int64   // body bytes written to the pipe whose conn-level credit has not been returned yet
 	declBodyBytes    int64   // or -1 if undeclared
 	flow             outflow // limits writing from Handler to client
 	inflow           inflow  // what the client is allowed to POST/etc to us
@@ -1586,7 +1587,11 @@ func (sc *serverConn) closeStream(st *stream, err error) {
 	if p := st.body; p != nil {
 		// Return any buffered unread bytes worth of conn-level flow control.
 		// See golang.org/issue/16481
-		sc.sendWindowUpdate(nil, p.Len())
+		// This counts the bytes still buffered in the pipe and bytes the
+		// handler has read but not reported yet; noteBodyRead ignores
+		// reports for a closed stream, so each byte is refunded once.
+		sc.sendWindowUpdate(nil, int(st.bodyUnrefunded))
+		st.bodyUnrefunded = 0
 
 		p.CloseWithError(err)
 	}
@@ -1778,6 +1783,7 @@ func (sc *serverConn) processData(f *DataFrame) error {
 			if wrote != len(data) {
 				panic("internal error: bad Writer")
 			}
+			st.bodyUnrefunded += int64(wrote)
 		}
 
 		// Return any padded flow control now, since we won't
@@ -2395,6 +2401,11 @@ func (sc *serverConn) noteBodyReadFromHandler(st *stream, n int, err error) {
 
 func (sc *serverConn) noteBodyRead(st *stream, n int) {
 	sc.serveG.check()
+	if st.state == stateClosed {
+		// closeStream already returned the credit of every unreported byte.
+		return
+	}
+	st.bodyUnrefunded -= int64(n)
 	sc.sendWindowUpdate(nil, n) // conn-level
 	if st.state != stateHalfClosedRemote && st.state != stateClosed {
 		// Don't send this WINDOW_UPDATE if the stream is closed
